@@ -111,7 +111,7 @@ def r03_1(ctx) -> None:
                   construct=f"emitted segments vs signing input in {fn.short}")
 
 
-def r03_2(ctx) -> None:
+def r03_2(ctx, rule: str = "R03.2") -> None:
     eng = ctx.eng
     P = eng.prog
     kp = _key_producers(eng)
@@ -143,9 +143,51 @@ def r03_2(ctx) -> None:
             n += 1
             en = cfg.node_of(s.node)
             ok = en is not None and cfg.must_pass(cfg.entry, en, knodes)
-            ctx.check(ok, "R03.2", fn, s.node, f"{fn.short} :: {norm(s.node)[:50]}", "the protected header is encoded before the key is selected: a kid recorded by the key selection would "
+            ctx.check(ok, rule, fn, s.node, f"{fn.short} :: {norm(s.node)[:50]}", "the protected header is encoded before the key is selected: a kid recorded by the key selection would "
                       "not be part of the signed header", "key selection dominates the header encoding", construct=f"kid before header at {norm(s.node)[:50]}")
-    ctx.count("R03.2", n, 4, "header encodings in functions that select a key")
+            # the dict that is encoded is the dict the key selection writes the kid into
+            if jbe in s.callees and s.node.args and isinstance(s.node.args[0], ast.Name) and s.node.args[0].id in fn.params:
+                n += 1
+                why = _same_header_object(eng, fn, s.node.args[0].id, ks)
+                ctx.check(why is None, rule, fn, s.node, f"{fn.short} :: identity of {norm(s.node)[:40]}", f"the header that is encoded is not the object that receives the kid of the selected key: {why}",
+                          "the message object stores the caller's dict itself (or the encoder reads obj.protected)", construct=f"kid target identity at {norm(s.node)[:50]}")
+    ctx.count(rule, n, 4, "header encodings in functions that select a key")
+
+
+def _same_header_object(eng, fn: FunctionInfo, name: str, ks) -> Optional[str]:
+    """`name` (a parameter of fn holding the header dict) is encoded directly; the key selection records the kid on a message
+    object: that object must hold the very same dict.  Returns a reason when it does not."""
+    objs = []
+    for k in ks:
+        for a in list(k.node.args) + [kw.value for kw in k.node.keywords]:
+            if isinstance(a, ast.Name) and a.id not in fn.params:
+                objs.append(a.id)
+    found = False
+    for oname in objs:
+        for kind, dn, extra in eng.flow._defs(fn).get(oname, []):
+            if kind != "assign" or not isinstance(dn, ast.Call):
+                continue
+            site = eng.cg.site_of.get(id(dn))
+            if site is None or site.kind != "ctor":
+                continue
+            for init in site.callees:
+                if init.cls is None or "set_kid" not in {m for c in init.cls.mro for m in c.methods}:
+                    continue
+                for pname in init.pos_params[1:]:
+                    a = eng.cg.arg_for_param(site, init, pname)
+                    if isinstance(a, ast.Name) and a.id == name:
+                        found = True
+                        sn = init.self_name
+                        stores = [x for x in fn_nodes(init) if isinstance(x, ast.Assign) and any(isinstance(t, ast.Attribute) and norm(t.value) == sn for t in x.targets)
+                                  and any(isinstance(y, ast.Name) and y.id == pname for y in ast.walk(x.value))]
+                        if not stores:
+                            return f"{init.short} does not keep its {pname!r} argument"
+                        for st in stores:
+                            if not (isinstance(st.value, ast.Name) and st.value.id == pname):
+                                return f"{init.short} stores `{norm(st.value)}` (a different object) - a kid set on the message never reaches the encoded dict"
+    if not found:
+        return f"`{name}` is not the header object of the message handed to the key selection"
+    return None
 
 
 def _ceil_div8(e: ast.AST) -> bool:
